@@ -11,7 +11,7 @@ R = lambda n: ("ref", n)  # noqa: E731
 # helper rules: n non-silent, s silent (produces a pair and can then still fail)
 HELPERS = (("n", "", S("a")), ("s", "_", ("seq", (R("n"), S("b")))))
 
-T_CORE = (S("a"), S("b"), S("ab"), ("ci", "a"), ("range", "a", "b"), R("ANY"), R("EOI"), R("n"), R("s"), R("SOI"), R("ASCII_HEX_DIGIT"))
+T_CORE = (S("a"), S("b"), S("ab"), ("ci", "a"), ("range", "a", "b"), R("ANY"), R("EOI"), R("n"), R("s"), R("SOI"), R("ASCII_HEX_DIGIT"), S(""))
 SIGMA_CORE = "abA"
 
 _inputs_cache: dict = {}
@@ -56,10 +56,12 @@ TRIVIA = {
     "both_overlap": (("WHITESPACE", "_", S(" ")), ("COMMENT", "_", ("seq", (S(" "), S("#"))))),
     # a COMMENT whose body calls a non-atomic rule: implicit rules are skipped inside an implicit rule (re-entrance)
     "cm_nonatomic": (("cin", "!", ("seq", (S("a"), ("opt", S("a"))))), ("COMMENT", "_", ("seq", (S("#"), R("cin"), S("!"))))),
+    # an implicit rule that changes the stack before it can fail: a failed attempt must leave the stack alone
+    "cm_stack": (("WHITESPACE", "_", S(" ")), ("COMMENT", "_", ("seq", (("push", S("#")), S("!"), ("drop",))))),
     "cm_pred": (("COMMENT", "_", ("seq", (S("#"), ("star", ("grp", ("seq", (("not", ("grp", ("alt", (S("!"), R("EOI"))))), R("ANY")))))))),),
 }
 TRIVIA_SIGMA = {
-    "none": "", "ws": " ", "ws_loud": " ", "cm2": "#!", "both": " #!", "ws_choice": " \t", "cm1": "#", "both_loud": " #", "ws_overlap": "", "cm_pred": "#!", "ws_pairs": " .", "both_overlap": " #", "cm_nonatomic": "#!",
+    "none": "", "ws": " ", "ws_loud": " ", "cm2": "#!", "both": " #!", "ws_choice": " \t", "cm1": "#", "both_loud": " #", "ws_overlap": "", "cm_pred": "#!", "ws_pairs": " .", "both_overlap": " #", "cm_nonatomic": "#!", "cm_stack": " #!",
 }
 
 
@@ -69,7 +71,7 @@ TRIVIA_SIGMA = {
 PUSH_AB = ("push", ("alt", (S("a"), S("b"))))
 T_STACK = (PUSH_AB, ("pop",), ("peek",), ("drop",), ("peekall",), ("popall",), ("pushlit", "b"), ("slice", 0, None), ("slice", -1, None))
 T_TAGGED = (("tag", "tt", R("n")), ("tag", "tt", ("grp", ("seq", (R("n"), S("b"))))), ("tag", "tt", R("s")))
-T_FULL = T_CORE + (("ci", "ab"),) + T_STACK + T_TAGGED
+T_FULL = T_CORE + (("ci", "ab"), ("ci", "")) + T_STACK + T_TAGGED
 MODS = ("", "_", "@", "$", "!")
 NEVER = S("!")          # '!' is in no input alphabet: HOLE ~ "!" commits HOLE and then fails
 REST = ("star", R("ANY"))
@@ -106,7 +108,18 @@ def contexts():
         "prepushed_opt_abandon": simple(lambda h: ("seq", (("pushlit", "a"), ("opt", ab(h)), ("peekall",), REST))),
         # two entries pushed WITHOUT consuming input: a stack terminal in the hole starts matching at the very start of the parse
         "prepushed_two_literals": simple(lambda h: ("seq", (("pushlit", "a"), ("pushlit", "b"), h, REST))),
+        # a postfix operator DIRECTLY over PUSH( ) whose argument commits and then fails (no group in between: implementations
+        # special-case operands that "buffer their own pairs")
+        "opt_push_abandon": simple(lambda h: ("seq", (("opt", ("push", ("seq", (h, NEVER)))), REST))),
+        "max_push_abandon": simple(lambda h: ("seq", (("max", ("push", ("seq", (h, NEVER))), 2), REST))),
+        "star_push_abandon": simple(lambda h: ("seq", (("star", ("push", ("seq", (h, NEVER)))), REST))),
+        "opt_push_then_fail": simple(lambda h: ("alt", (("seq", (("opt", ("push", h)), NEVER)), REST))),
     }
+    # a postfix operator directly over a rule reference whose body commits and then fails
+    for m, mname in (("", "normal"), ("_", "silent")):
+        def q(h, i, m=m):
+            return ((f"h{i}", m, ("seq", (h, NEVER))),), ("", ("seq", (("opt", R(f"h{i}")), ("max", R(f"h{i}"), 2), REST)))
+        ctx[f"opt_rule_abandon_{mname}"] = q
     # the hole as the WHOLE body of a rule that is called with a non-empty stack (generated templates for stack
     # terminals are only exercised bare - outside any sequence/choice that presets the result - in this shape)
     for m, mname in (("", "normal"), ("_", "silent")):
@@ -289,6 +302,22 @@ def skip_specs(kmode: str = "zero", tier: str = "quick", trivs=None, mods=None, 
     return out
 
 
+def explicit_trivia_specs(kmode: str = "zero", tier: str = "quick"):
+    """WHITESPACE / COMMENT named explicitly in rule bodies while they are also implicit and NOT silent: their pairs are subject to the
+    caller's atomicity like any other rule's, their bodies are atomic by name."""
+    out = []
+    for tv, sigma, L in (("ws_loud", "a ", 4), ("both_loud", "a #", 3 if (tier == "quick" or kmode == "all") else 4)):
+        names = tuple(R(r[0]) for r in TRIVIA[tv])
+        env = gast.Env(HELPERS + TRIVIA[tv])
+        bodies = gast.exprs_upto(3, (S("a"),) + names, U_CORE_SMALL, ("seq", "alt"), env)
+        starts = [((), (m, b)) for b in bodies for m in ("", "@", "$", "!")]
+        out.extend(batch_specs(starts, TRIVIA[tv] + HELPERS, inputs(sigma, L), kmode, f"explicit-loud-trivia({tv})"))
+    return out
+
+
+U_CORE_SMALL = (("grp",), ("opt",), ("star",), ("plus",), ("and",), ("not",))
+EXPLICIT_RULE_TEXT = "; plus explicit-loud-trivia: every expression with <= 3 nodes over {\"a\", WHITESPACE, COMMENT} with ( ) ? * + & ! ~ | as the body of a normal / @ / $ / ! rule, where WHITESPACE (and COMMENT) are non-silent implicit rules"
+
 SKIP_RULE_TEXT = ("; plus skip shapes: (!stop ~ ANY)* with stop in {\"b\", (\"b\"|\"ab\"), \"bb\", ^\"b\", ^\"ab\", n} in eleven templates (alone, before a terminator, repeated, twice in one sequence, "
                   "re-evaluated after backtracking, through a rule called twice, under & and ?), under the rule modifiers normal / @ / ! (C04 and thorough: all five), with trivia none / WHITESPACE (C04 and thorough: also a one-character COMMENT), "
                   "inputs over {a,b,B}+trivia up to length 4 (3 with trivia or with every start position)")
@@ -298,8 +327,8 @@ EXTRA_RULE_TEXT = ("; plus (c) counts: every bound {m} {m,} {,n} {m,n} with coun
 
 
 def c01_rule_text():
-    return ("(a) top level: every expression with <= n nodes over {\"a\",\"b\",\"ab\",^\"a\",^\"ab\",'a'..'b',ANY,EOI,SOI,ASCII_HEX_DIGIT,n,s, PUSH(\"a\"|\"b\"),POP,PEEK,DROP,PEEK_ALL,POP_ALL,PUSH_LITERAL(\"b\"),PEEK[0..],PEEK[-1..], #tt = n, #tt = (n ~ \"b\"), #tt = s} "
+    return ("(a) top level: every expression with <= n nodes over {\"a\",\"b\",\"ab\",\"\",^\"a\",^\"ab\",^\"\",'a'..'b',ANY,EOI,SOI,ASCII_HEX_DIGIT,n,s, PUSH(\"a\"|\"b\"),POP,PEEK,DROP,PEEK_ALL,POP_ALL,PUSH_LITERAL(\"b\"),PEEK[0..],PEEK[-1..], #tt = n, #tt = (n ~ \"b\"), #tt = s} "
             "with ( ) ? * + {2} {1,} {,2} {1,2} & ! ~ |, x start-rule modifier x trivia configuration; "
             "(b) contexts: every hole expression placed at top level, left/right of a sequence, as an alternative that commits and is then abandoned ((HOLE ~ \"!\") | ANY*), under ? * + {2} {1,} {,2} {1,2} with the same abandon trick, "
-            "under & ! !! , inside PUSH( ), after a pre-pushed stack entry, as the whole body of a rule called with one or two entries on the stack, and as the body of a _ @ $ ! rule called from a normal, an atomic and a compound parent (37 contexts); "
+            "under & ! !! , inside PUSH( ), after a pre-pushed stack entry, as the whole body of a rule called with one or two entries on the stack, and as the body of a _ @ $ ! rule called from a normal, an atomic and a compound parent (43 contexts, among them ? {,2} * directly over PUSH( ) and over a rule reference whose body commits and then fails); "
             "x every string over {a,b,A}+trivia symbols up to the length bound; start rules are batched 40 per grammar and failing cases re-run on the isolated rule" + EXTRA_RULE_TEXT)
